@@ -35,7 +35,8 @@ TREES = {
     "P": {"entries": [_file("A.sol", "c1"),
                       _dir("lib.sol", [_file("A.sol", "c2"), _file("T.t.sol", "c1")]),
                       _file("notes.txt", "c1"),
-                      _file("C.sol", "c3")]},
+                      _file("C.sol", "c3"),
+                      _file("N.sol", "c7")]},
     "contracts": {"entries": [_file("B.sol", "c2")]},
     "E": {"entries": []},
 }
@@ -79,7 +80,8 @@ def run(chk, hb, sb, workdir, tier):
     # abstract -> real names
     real = {"v1": cat["vulnerabilities"][0], "v2": cat["vulnerabilities"][-1],
             "o1": "increment_decrement" if "increment_decrement" in cat["optimizations"] else cat["optimizations"][0],
-            "o2": "solidity_math" if "solidity_math" in cat["optimizations"] else cat["optimizations"][1],
+            # a version-gated pattern: listed BEFORE a pattern that is not (list <<o2, o1>>), over a file without pragma (c7)
+            "o2": "string_errors" if "string_errors" in cat["optimizations"] else cat["optimizations"][1],
             "q1": cat["qa"][0], "zz": "not_a_documented_pattern"}
     items = []
     for b in beh:
@@ -97,7 +99,7 @@ def execute(hb, sb, items, workdir):
     """Runs the real binary on concrete inputs [{"inp": [flag, toml (real names), contracts], "rep0": absent|stale}];
     returns (records for TV_Solstat, path of the world file)."""
     cat = bindrive.extract_catalogue()
-    cont = {c: open(os.path.join(DIRWALK, c + ".sol"), "rb").read() for c in ("c1", "c2", "c3")}
+    cont = {c: open(os.path.join(DIRWALK, c + ".sol"), "rb").read() for c in ("c1", "c2", "c3", "c7")}
     # per-file results in isolation, for every documented pattern
     res = {}
     for c in cont:
